@@ -1,0 +1,42 @@
+//go:build verif
+
+// Contracts checked by /verif/gowp. This file contains comments only and is compiled only
+// with -tags verif.
+
+package xcrd
+
+// C07 / C11: the machinery field sets. The key sets are written here from the property text,
+// not from the code: a key added to or removed from one of the literals fails the postcondition.
+
+//@ func xcrd.CompositeResourceClaimSpecProps
+//@ frame fresh-only
+//@ props C07 C11
+//@ ensures [C07,C11:claim-spec-machinery-keys] forall k:Str :: (k in result) <==>
+//@      (k == "compositionRef" || k == "compositionSelector" || k == "compositionRevisionRef" || k == "compositionRevisionSelector"
+//@    || k == "compositionUpdatePolicy" || k == "compositeDeletePolicy" || k == "resourceRef"
+//@    || k == "publishConnectionDetailsTo" || k == "writeConnectionSecretToRef")
+
+//@ func xcrd.CompositeResourceSpecProps
+//@ frame fresh-only
+//@ props C07 C11
+//@ ensures [C07,C11:xr-spec-machinery-keys] forall k:Str :: (k in result) <==>
+//@      (k == "compositionRef" || k == "compositionSelector" || k == "compositionRevisionRef" || k == "compositionRevisionSelector"
+//@    || k == "compositionUpdatePolicy" || k == "claimRef" || k == "resourceRefs"
+//@    || k == "publishConnectionDetailsTo" || k == "writeConnectionSecretToRef")
+
+//@ func xcrd.CompositeResourceStatusProps
+//@ frame fresh-only
+//@ props C07 C11
+//@ ensures [C07,C11:status-machinery-keys] forall k:Str :: (k in result) <==>
+//@      (k == "conditions" || k == "connectionDetails" || k == "claimConditionTypes")
+
+//@ func xcrd.GetPropFields
+//@ frame fresh-only
+//@ props C07
+//@ loop range props
+//@   invariant [C07:count] i == nvisited && 0 <= i
+//@   invariant [C07:fields-so-far] forall k:Str :: (exists j :: 0 <= j && j < i && propFields[j] == k) <==> (k in visited)
+//@   invariant [C07:visited-are-keys] forall k:Str :: k in visited ==> k in props
+//@   invariant [C07:props-untouched] forall k:Str :: (k in props) <==> old(k in props)
+//@ ensures [C07:fields-are-the-keys] forall k:Str :: (exists j :: 0 <= j && j < len(result) && result[j] == k) ==> (k in props)
+//@ ensures [C07:every-key-is-a-field] forall k:Str :: (k in props) ==> (exists j :: 0 <= j && j < len(result) && result[j] == k)
